@@ -1263,7 +1263,7 @@ def m_vec_deref(ex, st, func, args, argtys, dest_ty):
     return [("ret", cref(args[0]), None)]
 
 
-@model(r"^<\[.*\] as Index<std::ops::RangeFrom<usize>>>::index$|^<\[.*\] as Index<RangeFrom<usize>>>::index$")
+@model(r"^<\[.*\] as (std::ops::)?Index<(std::ops::)?RangeFrom<usize>>>::index$")
 def m_slice_from(ex, st, func, args, argtys, dest_ty):
     arr = deref(args[0])
     start = deref(args[1])
